@@ -154,6 +154,18 @@ def membership_op(sym, N):
     check(gotn == ['T%d' % i for i in range(n) if not inn(ks[i])], 'selectnotin is not the exact rest', ks, cont, gotn)
 
 
+def chained_op(sym, N):
+    """select(select(t, rowpred, missing=m1), field, pred, missing=m2): short rows read as m2 in the outer selection"""
+    table, rows, ks0 = _table(sym, N, 'Od2', True)
+    n = len(rows)
+    inner = petl.select(table, lambda rec: True, missing='m1')
+    got, _ = _tags(petl.selectnone(inner, 't') if False else petl.select(inner, 'k', lambda v: v is None, missing=None))
+    exp = ['T%d' % i for i in range(n) if (rows[i][1] if len(rows[i]) > 1 else None) is None]
+    check(got == exp, 'chained selections: the outer selection must see missing cells as ITS missing', rows, got, exp)
+    got2, _ = _tags(petl.selectnone(inner, 'k'))
+    check(got2 == exp, 'selectnone after a row-form select', rows, got2, exp)
+
+
 def facet_op(sym, N, dom):
     table, rows, ks = _table(sym, N, dom, False)
     n = len(rows)
@@ -295,6 +307,7 @@ def jobs(tier):
                                         ragged=True, miss=miss), budget=B))
     for dom in ('Od2', 'Md2'):
         out.append(dict(name='facet/%s' % dom, func='facet_op', params=dict(N=3 if q else 4, dom=dom), budget=B))
+    out.append(dict(name='chained-selects', func='chained_op', params=dict(N=2 if q else 3), budget=B))
     out.append(dict(name='selectin-containers', func='membership_op', params=dict(N=2 if q else 3), budget=B))
     out.append(dict(name='selectcontains', func='contains_op', params=dict(N=2 if q else 3), budget=B))
     out.append(dict(name='rowlenselect', func='rowlen_op', params=dict(N=2 if q else 3), budget=B))
